@@ -7,7 +7,7 @@
 (* upstream regression input.                                                 *)
 EXTENDS Naturals, Sequences, FiniteSets, TLC, Json
 
-CONSTANTS ParamRows, ResultRows, CRows, CResults, LuaRows, PyRows, MaxFuncs, MaxParams
+CONSTANTS ParamRows, ResultRows, CRows, CResults, LuaRows, PyRows, VecRows, MaxFuncs, MaxParams
 
 VARIABLES lib, done, kind
 
@@ -80,6 +80,10 @@ SetOption(k, v) == /\ ~done /\ ((k = "wrap_lua" /\ v = TRUE) => LuaOK) /\ ((k = 
 Finish == /\ ~done /\ lib.funcs # <<>> /\ done' = TRUE
              /\ (lib.opts.wrap_fortran => lib.opts.wrap_c)
              /\ (lib.opts.wrap_c \/ lib.opts.wrap_python \/ lib.opts.wrap_lua)
+             \* the C form of a std::vector argument is the "bufferify" function, which is only generated for the
+             \* Fortran wrapper (generate.arg_to_buffer): a C-only wrapper of such a function is not a documented use
+             /\ ((lib.opts.wrap_c /\ ~lib.opts.wrap_fortran) =>
+                    \A i \in 1..Len(lib.funcs) : \A k \in 1..Len(lib.funcs[i].params) : lib.funcs[i].params[k] \notin VecRows)
              /\ UNCHANGED lib
 
 Build ==
